@@ -23,6 +23,14 @@ type Base struct {
 	ManualOnly bool
 }
 
+// PrivateHelpers names, per base ID, the helper functions that the base's source declares after
+// F (by the short name they have in a fingerprint report). They are part of the base: an edit
+// inside one is an edit of the base.
+var PrivateHelpers = map[string][]string{
+	"method":     {"(rec).calc"},
+	"genericlen": {"glen"},
+}
+
 // ManualEdit is a hand-written behaviour-changing rewrite of a base.
 type ManualEdit struct{ Desc, Src string }
 
@@ -638,6 +646,45 @@ lblOuter:
 		return int(f / 1048576.0), x
 	}
 	return int(f/1048576.0) + 1, y`),
+		mk("boxedconst", `	var e interface{} = int8(7)
+	if a > 2 {
+		e = int16(7)
+	}
+	switch e.(type) {
+	case int8:
+		return 1 + b, x
+	case int16:
+		return 2 + b, y
+	}
+	return 3, x`),
+		Base{Name: "F", ID: "genericlen", Src: "func F" + sig + ` {
+	m0 := map[int]int{7: 7}
+	return glen(m0, b) + a, x
+}
+
+func glen[M ~map[int]int](m M, n int) int {
+	c := 0
+	for i := 0; i < n; i++ {
+		m[i] = i
+		c = len(m)
+	}
+	return c
+}
+`, Manual: []ManualEdit{{"invalid refactoring inside the generic helper: len of a map-constrained type parameter, which the loop mutates, hoisted out of the loop", "func F" + sig + ` {
+	m0 := map[int]int{7: 7}
+	return glen(m0, b) + a, x
+}
+
+func glen[M ~map[int]int](m M, n int) int {
+	c := 0
+	l := len(m)
+	for i := 0; i < n; i++ {
+		m[i] = i
+		c = l
+	}
+	return c
+}
+`}}},
 		mk("dupexpr", `	t := a * b
 	c := (t + 1) * (t + 1)
 	d := (t - 2) * (t - 2)
